@@ -45,6 +45,11 @@ func runTool(env []string, stdout *bytes.Buffer, name string, args ...string) (s
 	}
 }
 
+// prefill puts stale content at an output path: every tool must replace it entirely
+func prefill(path string) {
+	os.WriteFile(path, bytes.Repeat([]byte("stale output of an earlier run\n"), 4000), 0644)
+}
+
 func writeTree(root string, tree []Sx) error {
 	for _, f := range tree {
 		rel := string(f.L[0].B)
@@ -85,6 +90,7 @@ func opCliGenDir(a []Sx) Sx {
 		return L(Sym("skip")) // a name the file system refuses
 	}
 	out := filepath.Join(d, "out.wbn")
+	prefill(out)
 	args := []string{"-version", string(a[0].B), "-dir", root, "-baseURL", string(a[1].B), "-o", out}
 	if a[0].IsSym("b1") {
 		args = append(args, "-primaryURL", string(a[1].B), "-ignoreErrors")
@@ -185,6 +191,7 @@ func opCliChain(a []Sx) Sx {
 		content := filepath.Join(d, "payload.bin")
 		os.WriteFile(content, a[5].B, 0600)
 		sxgPath := filepath.Join(d, "out.sxg")
+		prefill(sxgPath)
 		gargs := []string{"-version", string(a[2].B), "-uri", "https://example.com/index.html", "-content", content,
 			"-certificate", filepath.Join(d, "cert.pem"), "-privateKey", keyPath, "-miRecordSize", fmt.Sprint(a[4].Int()),
 			"-certUrl", "https://example.com/cert.cbor", "-validityUrl", "https://example.com/resource.validity.msg",
@@ -214,6 +221,7 @@ func opCliChain(a []Sx) Sx {
 			return L(Sym("skip"))
 		}
 		wbn := filepath.Join(d, "in.wbn")
+		prefill(wbn)
 		gargs := []string{"-version", string(a[1].B), "-dir", root, "-baseURL", "https://example.com/site/", "-o", wbn}
 		if a[1].IsSym("b1") {
 			gargs = append(gargs, "-primaryURL", "https://example.com/site/", "-ignoreErrors")
@@ -233,6 +241,7 @@ func opCliChain(a []Sx) Sx {
 			return L(Sym("skip"))
 		}
 		signed := filepath.Join(d, "signed.wbn")
+		prefill(signed)
 		if se, err := runTool(env, nil, "sign-bundle", "signatures-section", "-i", wbn, "-o", signed, "-certificate", certCbor,
 			"-privateKey", keyPath, "-miRecordSize", fmt.Sprint(a[4].Int())); err != nil {
 			return fail("sign-bundle signatures-section rejects gen-bundle output", se)
@@ -250,6 +259,7 @@ func opCliChain(a []Sx) Sx {
 		edKey := filepath.Join(d, "ed.pem")
 		os.WriteFile(edKey, ed25519PEM(edPriv), 0600)
 		swbn := filepath.Join(d, "out.swbn")
+		prefill(swbn)
 		var so bytes.Buffer
 		if se, err := runTool(env, &so, "sign-bundle", "integrity-block", "-i", wbn, "-o", swbn, "-privateKey", edKey); err != nil {
 			return fail("sign-bundle integrity-block rejects gen-bundle output", se+so.String())
